@@ -1217,18 +1217,9 @@ func (b *broker) subEventHistory(msg *wamp.Invocation) wamp.Message {
 
 				for i := 0; i < storeItem.entries.Len(); i++ {
 					entry := storeItem.entries.At(i)
-					if !fromDate.IsZero() && entry.event.timestamp.Before(fromDate) {
-						continue
-					}
-					if !afterDate.IsZero() && !entry.event.timestamp.After(afterDate) {
-						continue
-					}
-					if !beforeDate.IsZero() && !entry.event.timestamp.Before(beforeDate) {
-						continue
-					}
-					if !untilDate.IsZero() && entry.event.timestamp.After(untilDate) {
-						continue
-					}
+					// The publication bounds describe a range of positions in
+					// the store. They are looked for in every entry, also in
+					// those that the other filters leave out.
 					if fromPub != 0 {
 						if entry.event.Publication != fromPub {
 							continue
@@ -1255,6 +1246,19 @@ func (b *broker) subEventHistory(msg *wamp.Invocation) wamp.Message {
 						if entry.event.Publication == untilPub {
 							untilPubReached = true
 						}
+					}
+
+					if !fromDate.IsZero() && entry.event.timestamp.Before(fromDate) {
+						continue
+					}
+					if !afterDate.IsZero() && !entry.event.timestamp.After(afterDate) {
+						continue
+					}
+					if !beforeDate.IsZero() && !entry.event.timestamp.Before(beforeDate) {
+						continue
+					}
+					if !untilDate.IsZero() && entry.event.timestamp.After(untilDate) {
+						continue
 					}
 
 					eventTopic, ok := entry.event.Details["topic"]
